@@ -318,7 +318,8 @@ class RDFWriter(object):
 
             # Ignore "id" and empty values, but make sure the content of "value"
             # is only accessed via its non deprecated property "values".
-            if k == "id" or not curr_val:
+            # A numerically falsy attribute like an uncertainty of 0 is not empty.
+            if k == "id" or curr_val is None or curr_val == "" or curr_val == []:
                 continue
 
             if k == "value":
